@@ -1,5 +1,6 @@
 import StorageModel.Cursor.KindsProofs
 import StorageModel.Cursor.StackedProofs
+import StorageModel.Cursor.ReuseProofs
 /-
   C14 — Every set cursor enumerates its set exactly, in order, and seeks correctly.
 
@@ -394,6 +395,165 @@ theorem stacked_exact (l0 : Level) (ls : List Level) (rowId : Option Bytes) (ops
       ((Spec.plain (stackedKeys (l0 :: ls) rowId)).openRun ops).map (Obs.render rowKeyOf) :=
   (stackedOpen_implements l0 ls rowId (Nat.le_refl _)).run_eq ops
 
+
+/-! ### re-used cursor objects: nothing leaks from one opening into the next
+
+  A query keeps ONE runtime object per set symbol and calls `OpenCursor(tx, rowId)` on it for every
+  row it visits (`rowCursorImpl.symbolCache`), leaving it wherever the evaluation of the previous
+  row stopped (`anyOf` stops at its first match, `isEmpty` does not move at all, a seek may have
+  been made, …).  A *script* is a sequence of segments `(k, ops)` — open on row `k`, run `ops` —
+  executed on one object from an arbitrary state `s`.  The theorems: segment by segment the object
+  behaves exactly like a fresh cursor over the set of row `k` (and hence like the list
+  specification of that set). -/
+
+/-- the description of the fresh set-symbol cursor of a row: no bucket / a bucket holding `xs` -/
+def setRowDesc : Option (List Bytes) → Desc
+  | none => .setsymNone
+  | some xs => .setsym xs
+
+theorem setRowDesc_spec (row : Option (List Bytes)) : (setRowDesc row).spec = setRowSpec row := by
+  cases row <;> rfl
+
+theorem setRowDesc_implements (row : Option (List Bytes)) :
+    (setRowDesc row).open.Implements (setRowSpec row) renderNilEmpty := by
+  have := Desc.implements (setRowDesc row) (by cases row <;> trivial)
+  rw [setRowDesc_spec] at this
+  cases row <;> exact this
+
+/-- **entitySetSymbolRuntime, re-opened.**  For every assignment of sets (or "no bucket") to rows,
+    every sequence of segments and EVERY state `s` the object may have been left in: the
+    observations are, segment by segment, those of a fresh cursor over the row's set, i.e. those of
+    the list specification of that set (elements in key order, `SeekToString` to the first element
+    `≥ v`). -/
+theorem reopen_setsym {κ : Type} (rows : κ → Option (List Bytes)) (segs : List (κ × List Op)) (s : SetSymCur) :
+    (setSymReusable rows).run segs s = segs.flatMap (fun seg => (setRowDesc (rows seg.1)).open.run seg.2) ∧
+    (setSymReusable rows).run segs s =
+      segs.flatMap fun seg => ((setRowDesc (rows seg.1)).spec.openRun seg.2).map (Obs.render renderNilEmpty) := by
+  have h := setSymReusable_implements rows
+  refine ⟨h.run_eq_fresh (fresh := fun k => (setRowDesc (rows k)).open) (fun k => setRowDesc_implements (rows k)) segs s, ?_⟩
+  rw [h.run_eq segs s]
+  congr 1; funext seg; rw [setRowDesc_spec]
+
+theorem setSymSpec_nil_run : ∀ (ops : List Op), (setSymSpec []).run ops [] = List.replicate ops.length .invalid
+  | [] => rfl
+  | op :: ops => by
+    have ih := setSymSpec_nil_run ops
+    cases op <;>
+      simp [Spec.run, Spec.method, setSymSpec, Spec.seekIn, Spec.observe, List.replicate_succ] <;> exact ih
+
+/-- **A row without elements after anything.**  Whatever was done to the object before (any
+    segments `before`, from any state `s` — e.g. left standing on an element of another row), opening
+    it on a row that has no bucket for the set, or an empty one, yields a cursor that is invalid at
+    once and after every operation; the earlier observations are unaffected. -/
+theorem reopen_empty_invalid {κ : Type} (rows : κ → Option (List Bytes)) (k : κ)
+    (hk : ∀ xs, rows k = some xs → ∀ x, x ∉ xs) (before : List (κ × List Op)) (ops : List Op) (s : SetSymCur) :
+    (setSymReusable rows).run (before ++ [(k, ops)]) s =
+      (setSymReusable rows).run before s ++ List.replicate (ops.length + 1) .invalid := by
+  have h := setSymReusable_implements rows
+  rw [h.run_eq, h.run_eq, List.flatMap_append]
+  congr 1
+  have hE : setRowSpec (rows k) = setSymSpec [] := by
+    cases hr : rows k with
+    | none => rfl
+    | some xs =>
+      have : dedupSort xs = [] := List.eq_nil_iff_forall_not_mem.2 (fun x hx => hk xs hr x (mem_sortD.1 hx))
+      simp [setRowSpec, this]
+  have hrun : ((setSymSpec []).openRun ops).map (Obs.render renderNilEmpty) =
+      List.replicate (ops.length + 1) .invalid := by
+    simp only [Spec.openRun, show (setSymSpec []).list = [] from rfl, setSymSpec_nil_run]
+    simp [Spec.observe, Obs.render, List.replicate_succ]
+  simp only [List.flatMap_cons, List.flatMap_nil, List.append_nil, hE, hrun]
+
+/-- **compositeEntitySetSymbol, re-opened** (`others.tags`, …): every `OpenCursor` yields the
+    depth-first concatenation for the new row, whatever state the previous stacked cursor was in. -/
+theorem reopen_stacked {κ : Type} (l0 : Level) (ls : List Level) (rowOf : κ → Option Bytes) (fuel : Nat)
+    (hf : ∀ k, stackedFuel (l0 :: ls) (rowOf k) ≤ fuel) (segs : List (κ × List Op)) (s : StackedCur) :
+    (compReusable (l0 :: ls) fuel rowOf).run segs s =
+      segs.flatMap fun seg =>
+        ((Spec.plain (stackedKeys (l0 :: ls) (rowOf seg.1))).openRun seg.2).map (Obs.render rowKeyOf) :=
+  (compReusable_implements l0 ls fuel rowOf hf).run_eq segs s
+
+/-- **The sub-query cursor over a set symbol, row after row** (`OpenSetCursorForQuery`: a new
+    scanner around the re-opened runtime symbol; no paging).  Segment by segment: the linked ids of
+    the row that have a key, pass the child-store test and the filter, in key order; `Seek` is the
+    set symbol's raw `Seek` followed by the next accepted row. -/
+theorem reopen_subquery_setsym {κ : Type} (rows : κ → Option (List Bytes)) (cfg : ScanCfg) (hcfg : cfg.Unpaged)
+    (fuel : Nat) (hf : ∀ k, (setRowSpec (rows k)).list.length + 1 < fuel) (segs : List (κ × List Op))
+    (st : ScanState SetSymCur) :
+    (scanReusable (setSymReusable rows) cfg fuel).run segs st =
+      segs.flatMap fun seg =>
+        ((scanSpecR (setRowSpec (rows seg.1)) renderNilEmpty (cfg.keepR renderNilEmpty)).openRun seg.2).map
+          (Obs.render renderNilEmpty) :=
+  (scanReusable_implements (setSymReusable_implements rows) (fun _ => setSymSpec_stateless _) hcfg hf).run_eq segs st
+
+/-- **The sub-query cursor over a composite set symbol, row after row** (`from others.things where …`):
+    the wrapped stacked cursor has no `Seek`, so `Seek` is the forward-only fallback loop. -/
+theorem reopen_subquery_stacked {κ : Type} (l0 : Level) (ls : List Level) (rowOf : κ → Option Bytes) (cfg : ScanCfg)
+    (hcfg : cfg.Unpaged) (fuel fuel' : Nat) (hf : ∀ k, stackedFuel (l0 :: ls) (rowOf k) ≤ fuel)
+    (hf' : ∀ k, (stackedKeys (l0 :: ls) (rowOf k)).length + 1 < fuel') (segs : List (κ × List Op))
+    (st : ScanState StackedCur) :
+    (scanReusable (compReusable (l0 :: ls) fuel rowOf) cfg fuel').run segs st =
+      segs.flatMap fun seg =>
+        ((scanSpecR (Spec.plain (stackedKeys (l0 :: ls) (rowOf seg.1))) rowKeyOf (cfg.keepR rowKeyOf)).openRun seg.2).map
+          (Obs.render rowKeyOf) :=
+  (scanReusable_implements (compReusable_implements l0 ls fuel rowOf hf) (fun _ => plain_stateless _) hcfg hf').run_eq
+    segs st
+
+/-- **The non-seekable fallback of `uniqueIndexScanner.Seek`.**  For ANY wrapped cursor without a
+    `Seek` method (it implements `Spec.plain L`, rendering through any `r`), after ANY script,
+    `Seek(v)` leaves the scanner on the first of the rows *still ahead of it* whose value is not
+    below `v`, or invalid if there is none — a forward-only seek: it never moves backwards, the loop
+    ends within the budget, nothing panics. -/
+theorem scan_fallback_seek {c : AnyCursor} {L : List Bytes} {r : Render} (h : c.Implements (Spec.plain L) r)
+    (cfg : ScanCfg) (hcfg : cfg.Unpaged) {fuel : Nat} (hf : L.length + 1 < fuel) (ops : List Op) (v : Bytes) :
+    ((newScanCursor c cfg fuel).run (ops ++ [.seek v])).getLast? =
+      some ((Spec.observe
+        ((specState (scanSpecR (Spec.plain L) r (cfg.keepR r)) ops (L.filter (cfg.keepR r))).dropWhile
+          (fun x => decide ((r x).getD [] < v)))).render r) := by
+  have himp := newScanCursor_implementsR h (plain_stateless L) hcfg (fuel := fuel) hf
+  rw [himp.run_eq, Spec.openRun, spec_run_snoc]
+  simp only [Spec.method, scanSpecR, Spec.std, Option.map_some, List.map_cons, List.map_append, List.map_nil]
+  exact getLast?_cons_snoc _ _ _
+
+/-- **The paged sub-query cursor** (`from others where … skip S limit L`), re-opened row after row
+    and driven with `Next` (the `SetCursor` interface the set functions use): for ANY re-used set
+    symbol object that implements its row specifications (`setSymReusable_implements`,
+    `compReusable_implements`), every opening shows the window `drop S / take L` of the rows of the
+    NEW row's set that the query accepts — offset and limit counters do not carry over from the
+    previous row, nor does its position. -/
+theorem reopen_subquery_paged {σ κ : Type} {U : Reusable σ κ} {S : κ → Spec} {r : κ → Render}
+    (h : U.Implements S r) (cfg : ScanCfg) {fuel : Nat} (hf : ∀ k, (S k).list.length < fuel)
+    (segs : List (κ × List Op)) (hsegs : ∀ seg ∈ segs, NextOnlyOps seg.2) (st : ScanState σ) :
+    (scanReusable U cfg fuel).run segs st =
+      segs.flatMap fun seg =>
+        ((Spec.plain (cfg.page 0 0 ((S seg.1).list.filter (cfg.keepR (r seg.1))))).openRun seg.2).map
+          (Obs.render (r seg.1)) := by
+  rw [← Reusable.run_nextOnly _ segs hsegs st]
+  exact (scanReusable_implementsP h cfg hf).run_eq segs st
+
+/-- the window of a fresh scanner: drop `skip`, take `limit` -/
+theorem page_fresh (cfg : ScanCfg) (K : List Bytes) :
+    cfg.page 0 0 K = match cfg.targetLimit with
+      | none => K.drop cfg.targetOffset
+      | some l => (K.drop cfg.targetOffset).take l := by
+  unfold ScanCfg.page; cases cfg.targetLimit <;> simp
+
+/-- a paged sub-query re-opened: row 0 links `a b c`, row 1 `b c d`; `skip 1 limit 1` shows `b`, then `c` -/
+example : (scanReusable (setSymReusable (fun k : Nat => if k = 0 then some [[97], [98], [99]] else some [[98], [99], [100]]))
+      { skipRow := fun _ => false, filter := fun _ => true, targetOffset := 1, targetLimit := some 1 } 9).run
+    [(0, [.next]), (1, [.next])] { cursor := setSymNew, current := none, offset := 0, collected := 0 } =
+    [.value (some [98]), .invalid, .value (some [99]), .invalid] := by decide
+
+/-- non-vacuity: a stacked cursor (no `Seek`) wrapped by the scanner; a fuel that satisfies the hypotheses -/
+example : ∃ (c : AnyCursor) (L : List Bytes), c.Implements (Spec.plain L) rowKeyOf ∧ L.length + 1 < 9 :=
+  ⟨stackedOpen [fun _ => [[5, 97], [5, 98]]] none 9, [[5, 97], [5, 98]],
+    stackedOpen_implements _ [] none (by decide), by decide⟩
+
+/-- the sample of the class: left standing on `a` of row 0, re-opened on a row without bucket -/
+example : (setSymReusable (fun k : Nat => if k = 0 then some [[97], [98]] else none)).run
+    [(0, []), (1, [.next]), (0, [.next, .next])] setSymNew =
+    [.value (some [97]), .invalid, .invalid, .value (some [97]), .value (some [98]), .invalid] := by decide
+
 /-! ### non-vacuity and concrete instances -/
 
 /-- a well-formed nested description: union of a filtered typed reverse cursor and a tree set -/
@@ -433,3 +593,10 @@ end StorageModel.Properties.C14
 #print axioms StorageModel.Properties.C14.allOf_exact
 #print axioms StorageModel.Properties.C14.anyOf_exact
 #print axioms StorageModel.Properties.C14.stacked_exact
+#print axioms StorageModel.Properties.C14.reopen_setsym
+#print axioms StorageModel.Properties.C14.reopen_empty_invalid
+#print axioms StorageModel.Properties.C14.reopen_stacked
+#print axioms StorageModel.Properties.C14.reopen_subquery_setsym
+#print axioms StorageModel.Properties.C14.reopen_subquery_stacked
+#print axioms StorageModel.Properties.C14.scan_fallback_seek
+#print axioms StorageModel.Properties.C14.reopen_subquery_paged
